@@ -77,7 +77,7 @@ def normalize(param, M, R):
     return denormalize(param, M, 1.0 / R)
 
 
-def parse_touchstone(text, ports=None):
+def parse_touchstone(text, ports=None, ascending=True):
     """-> dict(version, ports, param, fmt, R, z0 [per port], freqs, data[nf][n][n]) with values in ohms/siemens (denormalised)"""
     lines = text.replace('\r\n', '\n').replace('\r', '\n').split('\n')
     version = 1
@@ -224,7 +224,7 @@ def parse_touchstone(text, ports=None):
     if refs is not None and len(refs) != n:
         raise ParseError('[Reference] needs %d values' % n)
     z0 = [complex(r) for r in refs] if refs is not None else [complex(opt['R'])] * n
-    freqs, data = [], []
+    freqs, data, raw = [], [], []
     for r in recs:
         if len(r) != 1 + 2 * per:
             raise ParseError('record with %d values, expected %d' % (len(r), 1 + 2 * per))
@@ -244,13 +244,15 @@ def parse_touchstone(text, ports=None):
                     M[a][b] = cells[k]
                     M[b][a] = cells[k]
                     k += 1
+        raw.append([list(r_) for r_ in M])
         if version == 1:
             M = denormalize(opt['param'], M, opt['R'])
         data.append(M)
-    for a, b in zip(freqs, freqs[1:]):
-        if not b > a:
-            raise ParseError('frequencies not ascending')
-    return dict(version=version, ports=n, param=opt['param'], fmt=opt['fmt'], R=opt['R'], z0=z0, freqs=freqs, data=data,
+    if ascending:
+        for a, b in zip(freqs, freqs[1:]):
+            if not b > a:
+                raise ParseError('frequencies not ascending')
+    return dict(version=version, ports=n, param=opt['param'], fmt=opt['fmt'], R=opt['R'], z0=z0, freqs=freqs, data=data, raw=raw,
                 order=order, mformat=mformat)
 
 
@@ -353,8 +355,11 @@ def parse_format_list(s):
     out = []
     for spec in s.split(','):
         t = ''.join(spec.lower().split())
-        if t in ('prc', 'prl', 'src', 'srl', 'il', 'rl', 'vswr'):
-            out.append(('zin' if t[1:] in ('rc', 'rl') and len(t) == 3 and t not in ('rl',) else 's', t))
+        if t in ('prc', 'prl', 'src', 'srl'):
+            out.append(('zin', t))
+            continue
+        if t in ('il', 'rl', 'vswr'):
+            out.append(('s', t))
             continue
         m = re.match(r'^(zin|[stuzyhgab])?(ri|ma|db)?$', t)
         if not m or not t:
